@@ -101,6 +101,10 @@ func (t *c03term) pretty() string {
 		return t.args[0].pretty() + "[" + t.args[1].pretty() + "]"
 	case "assert":
 		return t.args[0].pretty() + ".(" + types.TypeString(t.typ, func(p *types.Package) string { return p.Name() }) + ")"
+	case "none":
+		return ""
+	case "slice":
+		return t.args[0].pretty() + "[" + t.args[1].pretty() + ":" + t.args[2].pretty() + "]"
 	}
 	var as []string
 	for _, a := range t.args {
@@ -335,7 +339,7 @@ func (e *c03eng) termStruct(v ssa.Value, d int) *c03term {
 				if b == nil {
 					return nil
 				}
-				return &c03term{op: "field", fld: core.FieldOfAddr(a), args: []*c03term{b}}
+				return e.epochLoad(&c03term{op: "field", fld: core.FieldOfAddr(a), args: []*c03term{b}}, x)
 			case *ssa.Alloc:
 				if sv := e.reachingStore(x, a); sv != nil {
 					return sub(sv)
@@ -376,7 +380,34 @@ func (e *c03eng) termStruct(v ssa.Value, d int) *c03term {
 		if a == nil || b == nil {
 			return nil
 		}
-		return &c03term{op: "bin", name: x.Op.String(), args: []*c03term{a, b}}
+		return &c03term{op: "bin", name: x.Op.String(), vt: x.Type(), args: []*c03term{a, b}}
+	case *ssa.Slice:
+		// s[lo:hi] of a slice or string (not of an array pointer, whose length is a property of the type). Only built
+		// while a stored value is being evaluated (f1_c03.go); everywhere else a slice stays an opaque value.
+		if e.epoch == nil {
+			return nil
+		}
+		switch x.X.Type().Underlying().(type) {
+		case *types.Slice, *types.Basic:
+		default:
+			return nil
+		}
+		if x.Max != nil {
+			return nil
+		}
+		parts := []*c03term{sub(x.X), {op: "none"}, {op: "none"}}
+		if x.Low != nil {
+			parts[1] = sub(x.Low)
+		}
+		if x.High != nil {
+			parts[2] = sub(x.High)
+		}
+		for _, pt := range parts {
+			if pt == nil {
+				return nil
+			}
+		}
+		return &c03term{op: "slice", args: parts}
 	case *ssa.Call:
 		cc := x.Common()
 		if b, ok := cc.Value.(*ssa.Builtin); ok {
@@ -414,7 +445,7 @@ func (e *c03eng) termStruct(v ssa.Value, d int) *c03term {
 					as = append(as, e.addrBase(a, d+1))
 				}
 				if t := gt.subst(as); t != nil {
-					return t
+					return e.epochRead(t, x)
 				}
 			}
 		} else {
@@ -484,10 +515,14 @@ func (e *c03eng) termStruct(v ssa.Value, d int) *c03term {
 		}
 		return &c03term{op: "assert", typ: x.AssertedType, args: []*c03term{b}}
 	case *ssa.Phi:
-		// a phi whose incoming values are all the same term
+		// a phi whose incoming values are all the same term (under a call-site binding: the incoming values of the
+		// edges that are feasible for the bound arguments)
 		var first *c03term
-		for _, ed := range x.Edges {
+		for i, ed := range x.Edges {
 			if ed == v {
+				continue
+			}
+			if e.bind != nil && e.bind.fn == x.Parent() && e.edgeInfeasible(x, i) {
 				continue
 			}
 			t := sub(ed)
@@ -845,7 +880,7 @@ func (a c03atom) subst(args []*c03term) (c03atom, bool) {
 			return b, false
 		}
 	}
-	return b, true
+	return c03normAtom(b), true
 }
 
 func (a c03atom) negate() c03atom {
@@ -960,7 +995,7 @@ func (e *c03eng) atomOf(cond ssa.Value, pol bool) (c03atom, bool) {
 			if !pol {
 				op = c03negOp(op)
 			}
-			return c03atom{kind: "cmp", t: t, op: op, k: k, pos: true}, true
+			return c03normAtom(c03atom{kind: "cmp", t: t, op: op, k: k, pos: true}), true
 		}
 		if c, ok := core.Unwrap(Y, false).(*ssa.Const); ok && c.Value != nil && (op == token.EQL || op == token.NEQ) {
 			t := e.termOf(X)
@@ -985,7 +1020,7 @@ func (e *c03eng) atomOf(cond ssa.Value, pol bool) (c03atom, bool) {
 			if !pol {
 				op = c03negOp(op)
 			}
-			return c03atom{kind: "rel", t: t, u: u, op: op, pos: true}, true
+			return c03normAtom(c03atom{kind: "rel", t: t, u: u, op: op, pos: true}), true
 		}
 		return c03atom{}, false
 	case *ssa.Call:
@@ -1048,10 +1083,13 @@ type c03eng struct {
 	wrBusy  map[*ssa.Function]bool
 	callers map[*ssa.Function][]ssa.CallInstruction
 	hook    func(g c03goal) (bool, string) // facts validated at load time (optional)
+	bind    *c03bind                       // call-site binding under which phis are resolved (f1_c03.go)
+	epoch   *c03epoch                      // a store after which loads of one field read the stored value (f1_c03.go)
+	sumIdx  map[c03sumKey][2][]c03clause   // summaries of one boolean result of a multi-result function
 }
 
 func c03newEng(c *core.Ctx, reach map[*ssa.Function]bool) *c03eng {
-	e := &c03eng{c: c, reach: reach, byKey: map[string]*ssa.Function{}, sumT: map[*ssa.Function][]c03clause{}, sumF: map[*ssa.Function][]c03clause{},
+	e := &c03eng{c: c, reach: reach, sumIdx: map[c03sumKey][2][]c03clause{}, byKey: map[string]*ssa.Function{}, sumT: map[*ssa.Function][]c03clause{}, sumF: map[*ssa.Function][]c03clause{},
 		sumBusy: map[*ssa.Function]bool{}, pure: map[*ssa.Function]bool{}, getters: map[*ssa.Function]*c03term{}, impls: map[*types.Func][]*ssa.Function{}, wr: map[*ssa.Function]map[*types.Var]bool{}, wrBusy: map[*ssa.Function]bool{}, callers: map[*ssa.Function][]ssa.CallInstruction{}}
 	for f := range c.AllFunctions() {
 		if p := core.FuncPkg(f); p != nil && (core.InRepo(p) || strings.HasPrefix(p.Path(), "github.com/jf-tech/")) && f.Blocks != nil {
@@ -1294,7 +1332,7 @@ func (e *c03eng) mayWrite(in ssa.Instruction, flds map[*types.Var]bool) bool {
 
 // stableBetween: no instruction that can execute after the (latest) entry of block d and before `use`
 // may write one of the fields. d == nil means "from function entry".
-func (e *c03eng) stableBetween(d *ssa.BasicBlock, use ssa.Instruction, flds []*types.Var) bool {
+func (e *c03eng) stableBetween(d *ssa.BasicBlock, use ssa.Instruction, flds []*types.Var, except ...ssa.Instruction) bool {
 	if len(flds) == 0 {
 		return true
 	}
@@ -1352,7 +1390,13 @@ func (e *c03eng) stableBetween(d *ssa.BasicBlock, use ssa.Instruction, flds []*t
 				}
 				continue
 			}
-			if e.mayWrite(in, set) {
+			skip := false
+			for _, x := range except {
+				if x == in {
+					skip = true
+				}
+			}
+			if !skip && e.mayWrite(in, set) {
 				return false
 			}
 		}
@@ -1386,21 +1430,33 @@ func c03selfReach(b, avoid *ssa.BasicBlock) bool {
 // summaries: clauses over the function's parameters that hold whenever the (single bool result) function returns
 // true (resp. false).
 func (e *c03eng) summary(f *ssa.Function) (t, fl []c03clause) {
-	if s, ok := e.sumT[f]; ok {
-		return s, e.sumF[f]
+	if f.Signature.Results().Len() != 1 {
+		return nil, nil
+	}
+	return e.summaryAt(f, 0)
+}
+
+// summaryAt: the same for the idx-th result (a boolean) of a function with any number of results: `v, ok := f(x)`.
+func (e *c03eng) summaryAt(f *ssa.Function, idx int) (t, fl []c03clause) {
+	if s, ok := e.sumIdx[c03sumKey{f, idx}]; ok {
+		return s[0], s[1]
 	}
 	if e.sumBusy[f] || f.Blocks == nil {
 		return nil, nil
 	}
 	res := f.Signature.Results()
-	if res.Len() != 1 {
+	if idx >= res.Len() {
 		return nil, nil
 	}
-	if b, ok := res.At(0).Type().Underlying().(*types.Basic); !ok || b.Kind() != types.Bool {
+	if b, ok := res.At(idx).Type().Underlying().(*types.Basic); !ok || b.Kind() != types.Bool {
 		return nil, nil
 	}
 	e.sumBusy[f] = true
 	defer func() { e.sumBusy[f] = false }()
+	// summaries are context free: no call-site binding, no store epoch while they are computed
+	savedBind, savedEpoch := e.bind, e.epoch
+	e.bind, e.epoch = nil, nil
+	defer func() { e.bind, e.epoch = savedBind, savedEpoch }()
 	type way struct {
 		val bool
 		cls []c03clause
@@ -1442,8 +1498,8 @@ func (e *c03eng) summary(f *ssa.Function) (t, fl []c03clause) {
 		}
 	}
 	for _, b := range f.Blocks {
-		if rt, ok := b.Instrs[len(b.Instrs)-1].(*ssa.Return); ok && len(rt.Results) == 1 {
-			addValue(rt.Results[0], e.factsAtBlock(b), 0)
+		if rt, ok := b.Instrs[len(b.Instrs)-1].(*ssa.Return); ok && len(rt.Results) == res.Len() {
+			addValue(rt.Results[idx], e.factsAtBlock(b), 0)
 		}
 	}
 	inter := func(val bool) []c03clause {
@@ -1556,11 +1612,20 @@ func (e *c03eng) summary(f *ssa.Function) (t, fl []c03clause) {
 	}
 	// only observers may be summarised: the function must not write memory
 	if len(e.writeSet(f)) > 0 {
-		e.sumT[f], e.sumF[f] = nil, nil
+		e.sumIdx[c03sumKey{f, idx}] = [2][]c03clause{}
 		return nil, nil
 	}
-	e.sumT[f], e.sumF[f] = inter(true), inter(false)
-	return e.sumT[f], e.sumF[f]
+	var wayCls [2][][]c03clause
+	for _, w := range ways {
+		i := 0
+		if !w.val {
+			i = 1
+		}
+		wayCls[i] = append(wayCls[i], e.expand(w.cls, 0))
+	}
+	st, sf := c03disjoin(inter(true), wayCls[0]), c03disjoin(inter(false), wayCls[1])
+	e.sumIdx[c03sumKey{f, idx}] = [2][]c03clause{st, sf}
+	return st, sf
 }
 
 // expand adds, for every unit atom that is the truth value of a call to a summarised predicate, the clauses
@@ -1575,15 +1640,28 @@ func (e *c03eng) expand(cls []c03clause, depth int) []c03clause {
 			continue
 		}
 		a := cl.atoms[0]
-		if a.t.op != "call" {
+		ct, ridx := a.t, -1
+		if a.t.op == "extract" && len(a.t.args) == 1 && a.t.args[0].op == "call" {
+			// the ok result of `v, ok := helper(x)`
+			ct, ridx = a.t.args[0], a.t.idx
+		}
+		if ct.op != "call" {
 			continue
 		}
-		f := e.byKey[a.t.name]
+		f := e.byKey[ct.name]
 		if f == nil {
 			continue
 		}
 		var src []c03clause
 		switch {
+		case a.kind == "true" && ridx >= 0:
+			st, sf := e.summaryAt(f, ridx)
+			src = st
+			if !a.pos {
+				src = sf
+			}
+		case ridx >= 0:
+			continue
 		case a.kind == "true":
 			st, sf := e.summary(f)
 			src = st
@@ -1600,7 +1678,7 @@ func (e *c03eng) expand(cls []c03clause, depth int) []c03clause {
 			n := c03clause{at: cl.at}
 			ok := true
 			for _, sa := range scl.atoms {
-				b, good := sa.subst(a.t.args)
+				b, good := sa.subst(ct.args)
 				if !good {
 					ok = false
 					break
@@ -1705,6 +1783,31 @@ func c03interval(t *c03term, cls []c03clause) (lo, hi int64) {
 	if t.op == "len" {
 		lo = 0
 	}
+	if k, ok := c03constInt(t); ok {
+		return k, k
+	}
+	defer func() {
+		// exclusions of an end point are order independent: `x != 1` after `x >= 1` was seen
+		for changed := true; changed; {
+			changed = false
+			for _, cl := range cls {
+				if len(cl.atoms) != 1 {
+					continue
+				}
+				a := cl.atoms[0]
+				if a.kind != "cmp" || a.op != token.NEQ || !c03eq(a.t, t) || lo > hi {
+					continue
+				}
+				if a.k == lo && lo < math.MaxInt64 {
+					lo++
+					changed = true
+				} else if a.k == hi && hi > math.MinInt64 {
+					hi--
+					changed = true
+				}
+			}
+		}
+	}()
 	for _, cl := range cls {
 		if len(cl.atoms) == 1 {
 			a := cl.atoms[0]
@@ -2106,7 +2209,7 @@ func (e *c03eng) proveX(g c03goal, at ssa.Instruction, depth int, extra []c03cla
 					f2, _ := a.u.memFields()
 					flds = append(flds, f2...)
 				}
-				if cl.at != nil && !e.stableBetween(cl.at, at, flds) {
+				if cl.at != nil && !e.stableSinceRead(cl.at, at, flds) {
 					stable = false
 				}
 			}
